@@ -152,6 +152,9 @@ CMD_CASES = [
 def _cmdline(repo, args, **kw):
     pc = repo.func('Config.process_cmdline')
     f = FDE(repo)
+    # (whatever the option text is, a file of that name may exist in the working directory: what an override means does not depend on it)
+    from .common import fs_extcalls
+    f.extcalls = fs_extcalls(isfile=lambda p_: True)
     r = fde_guard(lambda: f.call(pc, ('class', 'Config'), list(args), **kw))
     if r.raised or not isinstance(r.ret, (tuple, list)) or len(r.ret) != 3:
         raise AnalysisError('process_cmdline: not evaluable on %s (%s)' % (args, r.raised))
@@ -264,6 +267,7 @@ def check(repo, run, tier):
     g(r4, repo, run)
     g(r5, repo, run)
     g(unitrules.require_all_new_table, repo, run, 'C08.R6')
+    g(unitrules.require_all_new_shared_nodes, repo, run, 'C08.R6')
     g(unitrules.removed_root_excepted, repo, run, 'C08.R1')
     g(unitrules.errors_constructible, repo, run, 'C08.R7')
     g(unitrules.error_wrapping, repo, run, 'C08.R7')
